@@ -77,6 +77,8 @@ where
     /// block_number: u64 - the block number to set the value for
     /// value: V - the value to set
     pub fn set(&mut self, block_number: u64, value: V) {
+        #[cfg(feature = "verif-hooks")]
+        crate::verif::table_write(&self.verif_name, block_number, &block_number.encode_vec(), Some(&value.encode_vec()));
         self.cache.insert(block_number, value.clone());
     }
 
